@@ -610,6 +610,94 @@ pub fn act_bankruptcy(sim: &Sim, ctx: &mut Ctx) -> Option<Tx> {
     ))
 }
 
+/// Bankruptcy drill: an indebted account's collateral becomes worthless (oracle crash on every
+/// bank it holds deposits in) until Ref calls it bankrupt; the debt bank's insurance vault is
+/// donated to one of {nothing, a third of the debt, exactly the debt, twice the debt}; sometimes
+/// the bank is opened to permissionless settlement and a stranger settles.
+pub fn drill_bankruptcy(sim: &mut Sim, ctx: &mut Ctx) -> Option<Tx> {
+    let mut cands: Vec<(usize, Pubkey)> = Vec::new();
+    for u in ctx.world.users.iter() {
+        for (gi, ma) in &u.maccounts {
+            if let Some(acc) = model::account_of(&sim.store, ma) {
+                if active_balances(&acc).iter().any(|b| i80(b.liability_shares) >= I80F48::ONE) {
+                    cands.push((*gi, *ma));
+                }
+            }
+        }
+    }
+    if cands.is_empty() {
+        return None;
+    }
+    let (gi, ma) = *ctx.rng.pick(&cands);
+    let g = ctx.world.groups[gi].clone();
+    let acc = model::account_of(&sim.store, &ma)?;
+    let now = sim.clock.unix_timestamp;
+    sim.stats.fault("drill_bankruptcy");
+    for bal in active_balances(&acc).iter().filter(|b| i80(b.asset_shares) >= I80F48::ONE) {
+        let Some(info) = ctx.world.bank_info_mut(&bal.bank_pk) else { continue };
+        info.price_micro = 1;
+        let ev = match info.oracle {
+            OracleKind::Pyth => Event::SetAccount {
+                key: info.oracle_key,
+                account: Some(fixtures::pyth_account(info.feed_id, &world::pyth_from_micro(1, info.expo.max(-8), 0, 0, now))),
+                why: "oracle_jump",
+            },
+            OracleKind::Swb => Event::SetAccount {
+                key: info.oracle_key,
+                account: Some(fixtures::swb_account(&world::swb_from_micro(1, 0, now))),
+                why: "oracle_jump",
+            },
+            OracleKind::Fixed => Event::Tx(Tx::one(
+                "admin",
+                ix::set_fixed_oracle_price(g.key, g.admins.admin, bal.bank_pk, world::w(0.000001)),
+            )),
+        };
+        sim.apply(ev);
+        if sim.violated() && sim.stop_on_violation {
+            return None;
+        }
+    }
+    let acc = model::account_of(&sim.store, &ma)?;
+    let bankrupt = crate::refm::health(&sim.store, &acc, crate::refm::Req::Equity, sim.clock)
+        .map(|e| e.assets < e.liabs && e.assets < model::qr(1, 10))
+        .unwrap_or(false);
+    if !bankrupt {
+        return None;
+    }
+    sim.stats.fault("drill_bankruptcy_account_bankrupt");
+    let liabs: Vec<Balance> = active_balances(&acc).into_iter().filter(|b| i80(b.liability_shares) >= I80F48::ONE).collect();
+    let lb = ctx.rng.pick(&liabs).clone();
+    let b = ctx.world.bank_info(&lb.bank_pk)?.clone();
+    let bank = model::bank_of(&sim.store, &lb.bank_pk)?;
+    let debt = liab_amount_u64(&bank, &lb);
+    // insurance donation (anyone can send tokens to the vault)
+    if let Some(mut v) = sim.store.get(&b.keys.insurance_vault).cloned() {
+        let amt = match ctx.rng.below(5) {
+            0 => 0,
+            1 => debt / 3,
+            2 => debt,
+            3 => debt.saturating_add(1),
+            _ => debt.saturating_mul(2),
+        };
+        fixtures::set_token_amount(&mut v.data, amt);
+        sim.apply(Event::SetAccount { key: b.keys.insurance_vault, account: Some(v), why: "fixture_insurance_donation" });
+    }
+    let mut signer = match ctx.rng.below(4) {
+        0 => g.admins.admin,
+        _ => g.admins.risk,
+    };
+    if ctx.rng.chance(1, 3) {
+        let opt = marginfi_type_crate::types::BankConfigOpt {
+            permissionless_bad_debt_settlement: Some(true),
+            ..Default::default()
+        };
+        sim.apply(Event::Tx(Tx::one("group_admin", ix::configure_bank(g.key, g.admins.admin, lb.bank_pk, opt))));
+        signer = ctx.world.stranger;
+    }
+    let rm = risk_metas(&sim.store, &ma, None, None);
+    Some(Tx::one("bankruptcy", ix::handle_bankruptcy(&b.keys, signer, ma, rm)))
+}
+
 // ---------- reference-guided actors (boundary search on forks) -----------------------------------
 
 /// Largest x in [1, hi] for which `build(x)` succeeds on a fork (assuming monotone acceptance).
@@ -685,7 +773,14 @@ pub fn act_borrow_boundary(sim: &mut Sim, ctx: &mut Ctx) -> Option<Tx> {
 }
 
 pub fn borrow_boundary_for(sim: &mut Sim, ctx: &mut Ctx, ui: usize, gi: usize, ma: Pubkey) -> Option<Tx> {
-    let b = pick_bank(ctx, gi)?;
+    borrow_boundary_in(sim, ctx, ui, gi, ma, None)
+}
+
+pub fn borrow_boundary_in(sim: &mut Sim, ctx: &mut Ctx, ui: usize, gi: usize, ma: Pubkey, from: Option<Pubkey>) -> Option<Tx> {
+    let b = match from {
+        Some(k) => ctx.world.bank_info(&k)?.clone(),
+        None => pick_bank(ctx, gi)?,
+    };
     let u = ctx.world.users[ui].clone();
     let ta = *u.tokens.get(&b.keys.mint)?;
     let est = est_max_borrow(sim, &ma, &b.keys.bank)?;
@@ -1060,7 +1155,13 @@ pub fn step_mkt(sim: &mut Sim, ctx: &mut Ctx) {
             None
         }
         9 => act_liquidate(sim, ctx),
-        10 => act_bankruptcy(sim, ctx),
+        10 => {
+            if ctx.rng.chance(1, 2) {
+                drill_bankruptcy(sim, ctx)
+            } else {
+                act_bankruptcy(sim, ctx)
+            }
+        }
         11 => {
             sim.stats.fault("oracle_price_jump");
             for e in act_price_jump(sim, ctx) {
